@@ -207,7 +207,14 @@ static void build(vf::Plan &plan, const vf::Opts &o)
     plan.assumptions = {"reference encoders validated against CPython binascii by CRC over the complete 2^24 / 2^16 / 2^8 domains",
                         "the array handed to the (pointer, size) encoders ends at a PROT_NONE page and is followed by nothing; the char_buffer overloads get the same bytes NUL-terminated",
                         "arrays longer than 3 bytes are covered by the length x content sweeps only (locality of the 3-byte group loop); every length up to the bound is present"};
-    for (int n = 3; n >= 1; --n) {
+    // VF_REDUCED: the ASan+UBSan build of the quick tier (reads past a text's heap block are invisible to the plain build): the
+    // 2^24 sweep is left to the plain build, everything else is kept
+#ifdef VF_REDUCED
+    const bool reduced = true;
+#else
+    const bool reduced = false;
+#endif
+    for (int n = reduced ? 2 : 3; n >= 1; --n) {
         plan.stage(strf("b64:all-%d-byte-groups(alone+after-full-group)", n), 1ull << (8 * n),
                    [n](uint64_t i, Ctx &c) {
                        for (int pre = 0; pre < 2; ++pre) {
@@ -231,7 +238,7 @@ static void build(vf::Plan &plan, const vf::Opts &o)
                [](uint64_t i) { return desc_bytes(sweep_data(i)); });
     // long arrays: every length across the library's internal size classes (16-byte in-object strings, 256-byte stack
     // strings, 4 KiB stream growth), a few contents each
-    unsigned longmax = o.thorough() ? 4200 : 1100, nseed = o.thorough() ? 8 : 3;
+    unsigned longmax = o.thorough() ? 4200 : reduced ? 600 : 1100, nseed = o.thorough() ? 8 : reduced ? 1 : 3;
     plan.stage(strf("b64+hex:long-length-sweep(%u..%u)x%u-contents", maxlen + 1, longmax, nseed), (uint64_t)(longmax - maxlen) * nseed,
                [maxlen, nseed](uint64_t i, Ctx &c) {
                    unsigned seed = (unsigned)(i % nseed) * 83u + 1u, len = (unsigned)(i / nseed) + maxlen + 1;
